@@ -209,6 +209,14 @@ func (p *Program) globalInitFacts(st *State) []*Term {
 				if !ok || p.storedGlobals[g] || strings.Contains(g.Name(), "$") {
 					continue
 				}
+				if call, isCall := s.Val.(*ssa.Call); isCall {
+					if callee := call.Call.StaticCallee(); callee != nil && (p.shortName(callee) == "errors.New" || p.shortName(callee) == "fmt.Errorf") {
+						// package-level sentinel errors are non-nil
+						et := g.Type().(*types.Pointer).Elem()
+						facts = append(facts, Not(isZero(st.load(vcx.globalRef(g), et), et)))
+					}
+					continue
+				}
 				c, ok := s.Val.(*ssa.Const)
 				if !ok {
 					continue
